@@ -6,7 +6,7 @@ patch="$1"; shift
 cd /verif
 if ! git -C /repo diff --quiet; then echo "refusing: /repo has uncommitted changes"; exit 2; fi
 git -C /repo apply "$patch" || { echo "patch does not apply"; exit 2; }
-trap 'git -C /repo checkout -- . ; echo "[repo restored]"' EXIT
+trap 'git -C /repo checkout -- . ; git -C /verif checkout -- evidence ; rm -rf /verif/replays ; echo "[repo restored; mutant-run evidence and replays discarded]"' EXIT
 for p in "$@"; do
   for seed in 20260926 1; do
     out=$(VERIF_SEED=$seed ./check run "$p" --tier quick 2>&1)
